@@ -281,6 +281,8 @@ def wsgi_init(v):
 
 ASSUMPTIONS = [
     'WSGI server stream contract (PEP 3333 / io.BufferedIOBase): read(n), readline(n) with n >= 0 return a prefix of the remaining body of length <= n',
+    'an empty answer to a request for n >= 1 bytes is the server\'s end of input (io semantics): exhaust() may stop there although Content-Length promised more '
+    '(clause exhaust-stops-only-at-content-length-or-server-eof)',
 ]
 NOT_DECIDED = [
     'exhaust(chunk_size) with chunk_size <= 0 (outside the documented "size for a chunk": 0 makes no progress, a negative size reads the remainder in one request); '
